@@ -24,6 +24,7 @@ def cfgs(ctx):
                  F.L(("a", "b"), ("b", "c"), ("c", "d"), ("a", "d"), ("a", "c")), F.L(*k4)]
         out.append(F.base("c12-stable4", F.A4, F.L(*k4), initups=tops4, exits=[["a"], ["a", "d"]], announcers=["a", "d"], replay=False))
         out.append(F.base("c12-stable4r", F.A4, F.L(*k4), initups=tops4, exits=[["a"]], announcers=["a"]))
+        out.append(F.base("c12-ring4r", F.A4, tops4[2], initups=[tops4[0], tops4[2]], exits=[["a"], ["b"]], announcers=["a", "c"]))
     return out
 
 
@@ -31,7 +32,7 @@ def run(ctx):
     runs = F.model(ctx, cfgs(ctx))
     caught = F.sensitivity(ctx, DEVS)
     rep = F.replay(ctx, runs)
-    ntr, nops = (25, 50) if ctx.quick() else (400, 90)
+    ntr, nops = (25, 50) if ctx.quick() else (1200, 100)
     tr = F.traces(ctx, "TestZZVFloodTrace", {"ZZV_TRACES": ntr, "ZZV_OPS": nops}, "c12trace")
     F.report(ctx, "C12", rep, [tr])
     st, trn = F.coverage(runs)
